@@ -391,10 +391,10 @@ def main(chk, args):
     build = common.build_and_audit("C03")
     if not build.driver_ok:
         chk.finish(build, RULE)
-    n = chk.scale(45 if chk.tier == "quick" else 500)
+    n = chk.scale(80 if chk.tier == "quick" else 500)
     for _ in range(n):
         run_case(chk, gen_case(chk.rng, chk.tier))
-    for _ in range(chk.scale(8 if chk.tier == "quick" else 60)):
+    for _ in range(chk.scale(14 if chk.tier == "quick" else 60)):
         rollup_case(chk, chk.rng)
     minimise(chk)
     lc = common.leanchecker("C03") if chk.tier == "thorough" else None
